@@ -336,14 +336,14 @@ def tasks(tier, seed):
             else:
                 prefixes = list(itertools.product(d.alphabet(p), repeat=split))
             # scripted starts from non-initial states: shortest histories ending in a drift, then the full suffix depth
-            after = [] if name in ("DDM", "ADWIN", "CUSUM", "PageHinkley") else drift_prefixes(name, p, maxlen=8 if d.kind == "stream" else 3, limit=2)
+            after = [] if name in ("DDM", "ADWIN", "CUSUM", "PageHinkley") else drift_prefixes(name, p, maxlen=8 if d.kind == "stream" else 3, limit=2, seeder=(lambda pos, n=name, i=ci: rng.seed_step(0 if pos == "init" else seed, n, i, pos)))
             for pre in after:
                 out.append(
                     {
                         "system": name,
                         "cfg": {"id": ci, "params": p},
                         "prefix": list(pre),
-                        "depth": max(2, depth - 2),
+                        "depth": depth if name == "LinearFourRates" else max(2, depth - 2),
                         "label": "%s|%d|after-drift:%s" % (name, ci, ",".join(map(str, pre))),
                         "cost": 2 * {"KdqTreeBatch": 30, "LinearFourRates": 20, "HDDDM": 10, "CDBD": 8, "NNDVI": 8, "KdqTreeStreaming": 10}.get(name, 1),
                         "validate_every": 211,
